@@ -35,7 +35,7 @@ impl Prop for C09 {
         "C09"
     }
     fn rule(&self) -> String {
-        "Cases: histories of 0..30 (thorough 0..100) operations concentrated on few addresses: 2-3 authors x kinds straddling every range boundary (0,3,9999,10000,19999,20000,29999,30000,39999,40000) x a d pool of values that are empty, NUL-extensions of each other, share a 182-byte prefix, or exceed 182 bytes; timestamps with repeats; versions arriving older / newer / equal / resubmitted / after removal; a low rate of deletion requests, of events with a second d tag and of parameterised events without a d value. Oracle after every step: for every address the number of retrievable events whose own (author, kind[, first d value]) equals it is <= 1 (by id), find_replaceable_event / find_parameterized_replaceable_event return that event or nothing, and an author+kind(+#d) query returns no second one; per store of a replaceable event: strictly newer than every holder and Ok => the holders are gone, it is retrievable, nothing else changed; strictly older than a holder => refused as replaced (or deleted) and nothing changed; events of non-replaceable kinds are never displaced by a non-deletion store. Plus the exhaustive classification of all 65,536 kinds against the stated ranges. Non-trivial: >= 3 versions submitted at one address in non-monotone time order, or two addresses in the history differing only in the d tail / beyond byte 182.".into()
+        "Cases: histories of 0..30 (thorough 0..100) operations concentrated on few addresses: 2-3 authors x kinds straddling every range boundary (0,3,9999,10000,19999,20000,29999,30000,39999,40000) x a d pool of values that are empty, NUL-extensions of each other, share a 182-byte prefix, or exceed 182 bytes; timestamps with repeats; versions arriving older / newer / equal / resubmitted / after removal; a low rate of deletion requests, of events with a second d tag and of parameterised events without a d value. Oracle after every step: for every address the number of retrievable events whose own (author, kind[, first d value]) equals it is <= 1 (by id), find_replaceable_event / find_parameterized_replaceable_event return that event or nothing, and an author+kind(+#d) query returns no second one; per store of a replaceable event: strictly newer than every holder and Ok => the holders are gone, it is retrievable, nothing else changed; strictly older than a holder => refused as replaced (or deleted) and nothing changed; events of non-replaceable kinds are never displaced by a non-deletion store. Plus the exhaustive classification of all 65,536 kinds against the stated ranges. After every successful replacement the displaced holder must be absent from every filter shape its own fields satisfy (id; author; author+kind; time window; each one-character tag's first value alone / with author / with kind). Non-trivial: >= 3 versions submitted at one address in non-monotone time order, or two addresses in the history differing only in the d tail / beyond byte 182.".into()
     }
     fn assumptions(&self) -> Vec<String> {
         vec![
@@ -165,6 +165,27 @@ impl Prop for C09 {
                                         format!("step {stepno}: storing {} (newer than the holder): unexpectedly gone {:?}; unexpectedly still there {:?}", e.short(), lost, kept),
                                     );
                                     return out;
+                                }
+                                // "by any lookup or query": the displaced holder is gone from every filter shape its own fields satisfy
+                                for j in &hs {
+                                    let old = w.events[*j].clone();
+                                    for (shape, f) in crate::props::c17::derived_filters(&old) {
+                                        match w.query(&f) {
+                                            Ok(ids) => {
+                                                if ids.contains(&old.id) {
+                                                    out.fail(
+                                                        format!("C09:displaced-holder-still-returned-by:{shape}"),
+                                                        format!("step {stepno}: {} was displaced by {} but the {shape} query {:?} still returns it", old.short(), e.short(), f),
+                                                    );
+                                                    return out;
+                                                }
+                                            }
+                                            Err(x) => {
+                                                out.fail(format!("C09:query-error:{x}"), format!("step {stepno}"));
+                                                return out;
+                                            }
+                                        }
+                                    }
                                 }
                             }
                             Res::Deleted => {}
